@@ -34,6 +34,11 @@
 (*                literal) or "scoped" (parenthesised expression)          *)
 (*        "term"  kids = juxtaposed items                                  *)
 (*        "frac"  kids = <<numerator, denominator>>                        *)
+(*        "eye"   (v1 only) the dirac: nm = "$" or "DELTA" (rendered as    *)
+(*                the Greek letter by the harness), ix = two letters,      *)
+(*        "cix"   (v1 only) a number with one index, e.g. 2_i; both have   *)
+(*                axes whose length is deduced from the expression;        *)
+(*                sg = <<leaf id>> names the unknown length                *)
 (*        "sum"   kids = terms, sg = one sign per term: "+" "-" (first:    *)
 (*                "+" = none, "-" = leading minus); "+-" "--" denote the   *)
 (*                forbidden negation of a later term (a + -b)              *)
@@ -95,7 +100,8 @@ VarAt(nm, pos) == LET t == VarTab[nm]
 Nd(op, nm, ix, kids, sg) == [op |-> op, nm |-> nm, ix |-> ix, kids |-> kids, sg |-> sg]
 NumNd(t) == Nd("num", t, <<>>, <<>>, <<>>)
 VarNd(nm, ix) == Nd("var", nm, ix, <<>>, <<>>)
-IsNumItem(e) == e.op = "num" \/ (e.op = "pow" /\ e.kids[1].op = "num")
+IsNumItem(e) == e.op \in {"num", "cix"} \/ (e.op = "pow" /\ e.kids[1].op \in {"num", "cix"})
+V1Leaf(op, nm, ix, id) == Nd(op, nm, ix, <<>>, <<id>>)
 
 RECURSIVE JoinSeqs(_, _)
 JoinSeqs(ss, sep) == IF Len(ss) = 0 THEN <<>> ELSE IF Len(ss) = 1 THEN ss[1] ELSE ss[1] \o sep \o JoinSeqs(Tail(ss), sep)
@@ -108,7 +114,7 @@ Render(e, st) ==
       ixs == IF e.ix = <<>> THEN <<>> ELSE <<"_">> \o e.ix
       K(p) == Render(e.kids[p], st)
   IN CASE e.op = "num" -> <<e.nm>>
-       [] e.op = "var" -> <<e.nm>> \o ixs
+       [] e.op \in {"var", "eye", "cix"} -> <<e.nm>> \o ixs
        [] e.op = "call" -> <<e.nm>> \o ixs \o <<"(">> \o pad \o K(1) \o pad \o <<")">>
        [] e.op = "scope" -> <<"(">> \o pad \o K(1) \o pad \o <<")">>
        [] e.op = "jump" -> <<"[">> \o pad \o K(1) \o pad \o <<"]">>
@@ -150,9 +156,11 @@ SeqSum(f, n) == IF n = 0 THEN 0 ELSE f[n] + SeqSum(f, n - 1)
 \* length of letter l among annotated kids (the first kid that uses it)
 KidLen(ks, l) == IF \E p \in 1..Len(ks) : ks[p].cnt[l] >= 1 THEN ks[CHOOSE p \in 1..Len(ks) : ks[p].cnt[l] >= 1].ln[l] ELSE 0
 
-RECURSIVE Chk(_)
-Chk(e) ==
-  LET ks == TLCEval([p \in 1..Len(e.kids) |-> Chk(e.kids[p])])   \* (TLCEval: evaluate once, not at every use)
+\* ChkG(e, U, v1): v1 = FALSE: the reading shared by both versions (eye / cix are no syntax);
+\* v1 = TRUE: the version 1 reading, U gives the lengths of the axes of eye / cix leaves (leaf id -> length)
+RECURSIVE ChkG(_, _, _)
+ChkG(e, U, v1) ==
+  LET ks == TLCEval([p \in 1..Len(e.kids) |-> ChkG(e.kids[p], U, v1)])   \* (TLCEval: evaluate once, not at every use)
       kw == FirstWhy(ks, 1)
       n == Len(ks)
       sumcnt == TLCEval([l \in AllLetters |-> SeqSum([p \in 1..n |-> ks[p].cnt[l]], n)])
@@ -168,6 +176,14 @@ Chk(e) ==
               IF Len(e.ix) # Len(sh) THEN Fail("index-count")
               ELSE IF IxWhy(e.ix, sh) # "" THEN Fail(IxWhy(e.ix, sh))
               ELSE An(e, ks, "", IxCnt(e.ix), IxLen(e.ix, sh), "f")
+    [] e.op \in {"eye", "cix"} ->
+         IF ~v1 THEN Fail("v1-syntax")
+         ELSE LET un == U[e.sg[1]]
+                  sh == IF e.op = "eye" THEN <<un, un>> ELSE <<un>>
+              IN IF Len(e.ix) # Len(sh) THEN Fail("index-count")
+                 ELSE IF \E p \in 1..Len(e.ix) : IsDigit(e.ix[p]) THEN Fail("numeral-on-inferred-axis")
+                 ELSE IF IxWhy(e.ix, sh) # "" THEN Fail(IxWhy(e.ix, sh))
+                 ELSE An(e, ks, "", IxCnt(e.ix), IxLen(e.ix, sh), IF e.op = "cix" /\ e.nm \notin FloatLits THEN "i" ELSE "f")
     [] e.op = "call" ->
          IF e.nm \notin DOMAIN FuncTab THEN Fail("unknown-function")
          ELSE LET ft == FuncTab[e.nm]
@@ -203,6 +219,14 @@ Chk(e) ==
          ELSE IF \E p \in 2..n : \E l \in FreeSet(ks[1].cnt) : ks[p].ln[l] # ks[1].ln[l] THEN Fail("term-length")
          ELSE An(e, ks, "", [l \in AllLetters |-> SeqMax([p \in 1..n |-> ks[p].cnt[l]], n)], kidln, alli)
 
+NoU == <<>>
+Chk(e) == ChkG(e, NoU, FALSE)
+\* the leaves with inferred lengths
+RECURSIVE Unk(_)
+Unk(e) == (IF e.op \in {"eye", "cix"} THEN {e.sg[1]} ELSE {}) \cup UNION {Unk(e.kids[p]) : p \in 1..Len(e.kids)}
+\* version 1: the lengths must be deducible: exactly one assignment (of lengths 1..4; the namespace has 2 and 3) satisfies the rules
+Consistent(e) == {U \in [Unk(e) -> 1..4] : ChkG(e, U, TRUE).why = ""}
+
 \* integer ** negative integer is refused by nutils' array layer (as by NumPy): not judged
 RECURSIVE IntNegPow(_)
 IntNegPow(n) == \/ \E p \in 1..Len(n.kids) : IntNegPow(n.kids[p])
@@ -228,6 +252,9 @@ Val(n, env) ==
     [] n.op = "var" ->
          SumOver(LAMBDA en : VarAt(n.nm, [p \in 1..Len(n.ix) |-> TokPos(n.ix[p], en)]),
                  {l \in AllLetters : n.cnt[l] = 2}, n.ln, env)
+    [] n.op = "eye" ->
+         SumOver(LAMBDA en : IF en[n.ix[1]] = en[n.ix[2]] THEN T2One ELSE T2Zero, {l \in AllLetters : n.cnt[l] = 2}, n.ln, env)
+    [] n.op = "cix" -> T2(Norm(NumTab[n.nm][1], NumTab[n.nm][2]))
     [] n.op = "call" ->
          SumOver(LAMBDA en : ApplyF(n.nm, Val(n.kids[1], en), [p \in 1..Len(n.ix) |-> TokPos(n.ix[p], en)]),
                  {l \in AllLetters : n.cnt[l] = 2 /\ n.kids[1].cnt[l] < 2}, n.ln, env)
